@@ -21,7 +21,7 @@ import gc
 import random
 
 from sim import aioloop as A
-from sim.adata import FAULT_CLASSES
+from sim.adata import FAULT_CLASSES as _BASE_FAULTS, jinja_fault_classes
 from sim.envs import clear_process_caches
 from sim.core import native_text, Outcome, digest, exc_key, scrub
 from sim.envs import AE_MODES, CodeMemo
@@ -39,7 +39,7 @@ RULE = (
     "render; then the k-th event of render r raises a private Exception, a private BaseException or a private subclass of ValueError / RuntimeError / OSError / ZeroDivisionError for every (r, k) "
     "(thorough) or a seeded sample (quick), plus histories with several faulted renders. Non-trivial = at least one fault "
     "fired and at least one clean render followed it; distinct = digest(program, history, fired faults)."
-    " Further fault classes (ValueError / RuntimeError / OSError / ArithmeticError subclasses, a class that forbids attribute assignment); NativeEnvironment; optional debug and i18n (newstyle, translating catalog) extensions; the sandbox's safety-marker probes are data events; one faulted history in 24 repeats the faulted render 120 times before clean renders of every entry point (soak)."
+    " Further fault classes (ValueError / RuntimeError / OSError / ArithmeticError subclasses, a class that forbids attribute assignment); NativeEnvironment; optional debug and i18n (newstyle, translating catalog) extensions; the sandbox's safety-marker probes are data events; one faulted history in 24 repeats the faulted render 120 times before clean renders of every entry point (soak). Sync environments have a fifth entry point, Environment.compile_expression(...)(**data); two fault classes derive from the engine's own UndefinedError / TemplateRuntimeError (call-like events only); a private TypeError is also injected at string-conversion events; the injected message is a real-world one (\"not enough arguments for format string\")."
 )
 ASSUMPTIONS = [
     "the isolated reference render (fresh environment, fresh data, one render) of the same code is the oracle for clean renders",
@@ -51,7 +51,24 @@ REAL_STUB = {
     "stub": ["data objects (Probe classes raising at the k-th event)", "event loop scheduling + clock in async mode (SimLoop)"],
 }
 BUDGET = {"quick": 40, "thorough": 600}
-SYNC_APIS = ["render", "generate", "stream", "module"]
+SYNC_APIS = ["render", "generate", "stream", "module", "compile_expression"]
+# (the text of a real-world TypeError / ValueError of data code; an engine must not decide by message text either)
+FAULT_MESSAGE = "injected: not enough arguments for format string"
+NFAULTS = len(_BASE_FAULTS) + 2  # + the two classes of jinja_fault_classes()
+# expressions for Environment.compile_expression over the probe data (sync environments; chosen by the data seed)
+EXPRS = [
+    "f1(o1.a) + l1|length",
+    "d1.k1 if b1 else s1|upper",
+    "lo|map(attribute='a')|list",
+    "(l2|sum, s1 ~ s2, f2(2))",
+    "o1.a.b.c",
+    "nope",
+    "gf(2) + f2(3) + gn",
+    "lo|selectattr('b')|map(attribute='a')|join(',') ~ f1(1)",
+    "gcx('s1') ~ (d1|length)",
+    "(l1|first, l1|last, lc|sort|length)",
+]
+
 ASYNC_APIS = ["render_async", "generate_async", "render(sync-api)", "make_module_async"]
 
 _setup_done = False
@@ -139,11 +156,13 @@ def _render_once(env, is_async, entry, api, data, tape):
     policy = A.install_policy()
     try:
         if not is_async:
-            tmpl = env.get_template(entry)
+            tmpl = env.get_template(entry) if api != 4 else None
             if api == 0:
                 return ("ok", tmpl.render(**data))
             if api == 1:
                 return ("ok", "".join(map(str, tmpl.generate(**data))))
+            if api == 4:
+                return ("ok", env.compile_expression(entry)(**data))
             if api == 2:
                 st = tmpl.stream(**data)
                 st.enable_buffering(3)
@@ -192,6 +211,7 @@ def run(tape: Tape) -> Outcome:
     setup()
     clear_process_caches()  # a run must not depend on the runs before it in this worker
     out = Outcome()
+    FAULT_CLASSES = _BASE_FAULTS + jinja_fault_classes()
     sandboxed = bool(tape.draw(2))
     if tape.draw(6, "m") == 5:
         sandboxed = 2  # NativeEnvironment
@@ -209,13 +229,15 @@ def run(tape: Tape) -> Outcome:
     hist = []
     for _ in range(nr):
         entry = P.entry_points[tape.draw(len(P.entry_points))]
-        api = tape.draw(4)
+        api = tape.draw(4 if is_async else 5)
         dseed = tape.draw(1 << 30, "d")
+        if api == 4:
+            entry = EXPRS[dseed % len(EXPRS)]  # Environment.compile_expression(...)(**data)
         hist.append((entry, api, dseed))
     faults = []
     for _ in range(nr):
         k = tape.draw(4096, "f")
-        exck = tape.draw(len(FAULT_CLASSES), "f")
+        exck = tape.draw(NFAULTS, "f")
         faults.append((k, exck))
 
     zero = Tape(streams={})
@@ -243,7 +265,7 @@ def run(tape: Tape) -> Outcome:
         for i, ((entry, api, dseed), (k, exck)) in enumerate(zip(hist, faults)):
             exc = None
             if k:
-                exc = FAULT_CLASSES[exck]("injected")
+                exc = FAULT_CLASSES[exck](FAULT_MESSAGE)
             ev = PEvents(fault_at=k, exc=exc)
             env.globals["gf"].ev = ev
             data = make_probe_data(dseed, ev, is_async=is_async, tape=tape)
@@ -298,7 +320,7 @@ def run(tape: Tape) -> Outcome:
             fentry, fapi, fdseed = hist[fi]
             soak_bad = None
             for rep_ in range(120):
-                exc = FAULT_CLASSES[fexck]("injected")
+                exc = FAULT_CLASSES[fexck](FAULT_MESSAGE)
                 ev = PEvents(fault_at=fk, exc=exc)
                 env.globals["gf"].ev = ev
                 data = make_probe_data(fdseed, ev, is_async=is_async, tape=tape)
@@ -367,7 +389,7 @@ def unit(index: int, seed: int, tier: str):
         for k in range(1, E[r] + 1):
             # the private Exception, the private BaseException and one of the ValueError / RuntimeError / OSError /
             # ArithmeticError subclasses (a narrowed or broadened except clause usually names a standard class)
-            for exck in (0, 1, 2 + rng.randrange(len(FAULT_CLASSES) - 2)):
+            for exck in (0, 1, 2 + rng.randrange(NFAULTS - 2)):
                 f = [0, 0] * nr
                 f[2 * r], f[2 * r + 1] = k, exck
                 plans.append(f)
@@ -380,7 +402,7 @@ def unit(index: int, seed: int, tier: str):
         f = []
         for r in range(nr):
             if E[r] and rng.random() < 0.5:
-                f += [1 + rng.randrange(E[r]), rng.randrange(len(FAULT_CLASSES))]
+                f += [1 + rng.randrange(E[r]), rng.randrange(NFAULTS)]
             else:
                 f += [0, 0]
         plans.append(f)
